@@ -490,6 +490,17 @@ class FnTranslator:
 
     # ---- conditions: (pre, Prop text)
     def cond(self, n):
+        if kind(n) == 'XCaseCond':
+            pre, t, ty = self.expr(n['scrut'])
+            labs = sorted(n['labels'])
+            # contiguous runs become ranges
+            runs = []; i = 0
+            while i < len(labs):
+                j = i
+                while j + 1 < len(labs) and labs[j + 1] == labs[j] + 1: j += 1
+                runs.append((labs[i], labs[j])); i = j + 1
+            parts = ['(%s = (%d : Int))' % (t, a) if a == b else '((%d : Int) ≤ %s ∧ %s ≤ (%d : Int))' % (a, t, t, b) for a, b in runs]
+            return pre, '(' + ' ∨ '.join(parts) + ')'
         n0 = strip(n)
         k = kind(n0)
         if k == 'BinaryOperator' and n0['opcode'] in ('||', '&&'):
@@ -897,7 +908,41 @@ class FnTranslator:
         return self.expr(n)
 
     def switch_stmt(self, s, rest, k):
-        raise Unsupported('switch')
+        """switch over an int with constant labels, every non-empty segment ending in return/break: rewritten
+        as an if/else chain (synthetic IfStmt nodes with an `XCaseCond` condition)"""
+        ii = [c for c in inner(s) if c]
+        scrut, body = ii[0], ii[-1]
+        if kind(body) != 'CompoundStmt': raise Unsupported('switch body')
+        segs = []; default = None; cur = None
+        for st in inner(body):
+            if kind(st) in ('CaseStmt', 'DefaultStmt'):
+                labels = []; is_default = False
+                node = st
+                while kind(node) in ('CaseStmt', 'DefaultStmt'):
+                    if kind(node) == 'DefaultStmt':
+                        is_default = True; node = inner(node)[-1]
+                    else:
+                        labels.append(const_int(inner(node)[0], self.tu)); node = inner(node)[-1]
+                cur = dict(labels=labels, default=is_default, stmts=[node])
+                segs.append(cur)
+            else:
+                if cur is None: raise Unsupported('statement before first case')
+                cur['stmts'].append(st)
+        for sg in segs:
+            if not sg['stmts'] or kind(sg['stmts'][-1]) not in ('BreakStmt', 'ReturnStmt'):
+                if sg is not segs[-1]: raise Unsupported('switch fallthrough')
+            if sg['stmts'] and kind(sg['stmts'][-1]) == 'BreakStmt': sg['stmts'] = sg['stmts'][:-1]
+            for st in sg['stmts']:
+                if self.has_jump(st, ('BreakStmt',)): raise Unsupported('nested break in switch')
+        chain = None
+        dflt = [sg for sg in segs if sg['default']]
+        tail = {'kind': 'CompoundStmt', 'inner': dflt[0]['stmts']} if dflt else None
+        for sg in reversed([sg for sg in segs if not sg['default']]):
+            node = {'kind': 'IfStmt', 'inner': [{'kind': 'XCaseCond', 'scrut': scrut, 'labels': sg['labels']},
+                                               {'kind': 'CompoundStmt', 'inner': sg['stmts']}] + ([tail] if tail else [])}
+            tail = node
+        if tail is None: return self.block(rest, k)
+        return self.block([tail] + rest, k)
 
     # ---- whole function
     def translate(self):
